@@ -8,11 +8,12 @@ RULE = ("P1: for all shapes m, l, n in 1..KC (quick 3, thorough 5), four flag pa
         "emitted and replayed through matmul, matmul_blocked for every block size 1..2 max(m,l,n), xtx, and every Dot "
         "method in all receiver/argument ownership combinations (Matrix.Matrix; Matrix.Vector when n = 1; Vector.Matrix"
         " when m = 1; Vector.Vector when m = n = 1), equality oracle on integer entries, panic expected for non-"
-        "conformable shapes; a third of the cases is replayed again with the operands scaled by powers of two (2^-60 x "
-        "2^60, 2^-55 x 2^-55, 2^300 x 2^200, 2^-500 x 1: still exact); P3: random shapes up to 12 (quick) / 16 "
-        "(thorough) with entries in +-50 recorded and validated by TLC (Trace_Products); shapes 17..64 through the "
-        "relational observation matmul_blocked = matmul. Case class = (entry point + ownership, flags, shape class, "
-        "conformable?, block-size class).")
+        "conformable shapes; A A^T and A^T A with one object passed as both operands equal the products with a copy; a "
+        "third of the cases is replayed again with the operands scaled by powers of two (2^-60 x 2^60, 2^-55 x 2^-55, "
+        "2^300 x 2^200, 2^-500 x 1: still exact); P3: random shapes up to 12 (quick) / 16 (thorough) with entries in "
+        "+-50 recorded and validated by TLC (Trace_Products); shapes 17..64 through the relational observation "
+        "matmul_blocked = matmul. Case class = (entry point + ownership, flags, shape class, conformable?, block-size "
+        "class).")
 ASSUMPTIONS = ["integer-valued entries: products and sums exact in f64 (equality oracle)",
                "a Vector argument/receiver is promoted to a column/row as the trait documentation states"]
 EXHAUSTIVE = True
